@@ -103,7 +103,12 @@ def gen_module(rng, idx):
         first_prompt = next((l.strip() for l in text.split('\n') if l.strip().startswith('>>>')), '')
         if FIRST_LINE_DISABLE.match(first_prompt) and not disabled:
             continue
-        src += ['def %s():' % name, '    r"""'] + ['    ' + l if l else l for l in text.split('\n')] + ['    """', '']
+        block = ['def %s():' % name, '    r"""'] + ['    ' + l if l else l for l in text.split('\n')] + ['    """', '']
+        if rng.random() < 0.2 and name not in ('dump', 'all'):
+            # a definition under a condition (a platform or feature test): collected and dumped like any other
+            cond = rng.choice(['isinstance(TRACE, list)', 'not TRACE', 'TRACE == []', 'hasattr(TRACE, "append")', 'len(TRACE) < 1'])
+            block = ['if %s:' % cond] + ['    ' + l if l else l for l in block]
+        src += block
         if not disabled:
             docs.append((name, stmts, wants))
     return '\n'.join(src) + '\n', docs
